@@ -1,6 +1,7 @@
 package checks
 
 import (
+	"sync"
 	"bytes"
 	"fmt"
 	"reflect"
@@ -130,11 +131,11 @@ func isBeyondBuilders(m *MClaims) bool { return !m.IsCanned() }
 
 func TestC10_WireFormat(t *testing.T) {
 	st := NewStats("C10", "TestC10_WireFormat", "rapid: valid claims-sets of both profiles built (a) through NewClaims+setters (optionally on an object on which every claim had already been set to another valid value of possibly different length), (b) as struct literals, (c) by decoding independently encoded tokens with permuted key order, extra unknown keys at top level and inside component maps (incl. the P1 no-measurements form), optionally followed by an in-place update of one decoded component through the object the getter returns, (d) by decoding JSON written by the harness (absent optional claims optionally spelt as null members, unknown members, 64-bit flag values, rotated member order), (e) through setters followed by REFUSED setter calls (invalid values, component lists with a malformed later entry), (g) as instances of the seven extension styles (incl. the profile-1 no-measurements form), (h) for ANY claims-set (valid or not): whatever the validating encoder emits satisfies the structural invariants; (i) components of another ISwComponent implementation, if the setter takes them; (f) through setters with the SAME component object listed at several positions (in one call or one by one through the container's Add); the bytes of ValidateAndEncodeClaimsToCBOR are parsed by the independent reader and compared key by key with the model's wire map (definite lengths, no duplicates/tags/trailing bytes, exact key set, exact values, bare-bstr nonce, never list+flag). Non-trivial = not the canned builder shape; distinct = class vector + route")
-	st.Require = []string{"route=setters", "route=literal", "route=decoded", "route=decoded+touched", "route=setters-twice", "route=json-decoded", "route=shared-component", "route=setters+refused", "route=extension", "extension-nomeas", "route=any-literal", "any-refused", "P1", "P2", "nomeas"}
+	st.Require = []string{"route=setters", "route=literal", "route=decoded", "route=decoded+touched", "route=setters-twice", "route=json-decoded", "route=shared-component", "route=setters+refused", "route=extension", "extension-nomeas", "route=any-literal", "any-refused", "P1", "P2", "nomeas", "route=iface-wrapper", "route=concurrent-encoders"}
 	defer st.Flush(t)
 	rapid.Check(t, func(t *rapid.T) {
 		p := drawProf(t)
-		route := rapid.SampledFrom([]string{"setters", "literal", "decoded", "setters", "decoded", "json-decoded", "shared-component", "extension", "foreign-component", "any-literal"}).Draw(t, "route")
+		route := rapid.SampledFrom([]string{"setters", "literal", "decoded", "setters", "decoded", "json-decoded", "shared-component", "extension", "foreign-component", "any-literal", "iface-wrapper", "concurrent-encoders"}).Draw(t, "route")
 		if route == "any-literal" {
 			// ANY claims-set (valid or not, as struct literal or decoded):
 			// whenever the validating encoder emits bytes at all, they are a
@@ -172,6 +173,131 @@ func TestC10_WireFormat(t *testing.T) {
 				t.Fatalf("C10 violated (whatever is emitted): %s\n emitted: %x\n [%s]", msg, out, m.ClassVector())
 			}
 			st.Case("any|emitted|"+m.ClassVector(), "route=any-literal", p.String())
+			return
+		}
+		if route == "iface-wrapper" {
+			// an add-on that embeds the base claims through the INTERFACE: one
+			// outer Go type on top of claims-sets of BOTH profiles (and of a
+			// nil base) in one process; the emitted map is the base profile's
+			// wire map plus the add-on's own claim
+			m := GenValid(t, p, false)
+			if len(m.Comps) == 0 {
+				// (hiding an EMPTY container next to the no-measurements flag
+				// is the business of the codec methods of the type that owns
+				// the field - the add-on has none for it: nil container)
+				m.CompsNil = true
+			}
+			c, ok := m.BuildLiteral()
+			if !ok {
+				st.Case("", "unrepresentable")
+				return
+			}
+			w := &IfaceWrapClaims{IClaims: c}
+			if genBool.Draw(t, "stamp") {
+				v := rapid.Int64Range(0, 1<<40).Draw(t, "stamp.v")
+				w.Stamp = &v
+			}
+			out, err := psatoken.ValidateAndEncodeClaimsToCBOR(w)
+			if err != nil {
+				t.Fatalf("C10: a valid claims-set under an interface-embedding add-on does not encode: %v [%s]", err, m.ClassVector())
+			}
+			n, _, rerr := icbor.Read(out)
+			if rerr != nil || n.Kind != icbor.KMap {
+				t.Fatalf("C10 violated (interface-embedding add-on): emitted CBOR is not one map (%v): %x", rerr, out)
+			}
+			var base [][2]*icbor.Node
+			var stamp *icbor.Node
+			for _, pr := range n.Pairs {
+				if k, isInt := pr[0].Int(); isInt && k == -75700 {
+					stamp = pr[1]
+					continue
+				}
+				base = append(base, pr)
+			}
+			if (stamp == nil) != (w.Stamp == nil) {
+				t.Fatalf("C10 violated (interface-embedding add-on): own claim present=%v, set=%v\n emitted: %x", stamp != nil, w.Stamp != nil, out)
+			} else if stamp != nil {
+				if v, isInt := stamp.Int(); !isInt || v != *w.Stamp {
+					t.Fatalf("C10 violated (interface-embedding add-on): own claim is %s, want %d", icbor.Diag(stamp), *w.Stamp)
+				}
+			}
+			if msg := c10CheckWire(icbor.Encode(icbor.Map(base...)), m); msg != "" {
+				t.Fatalf("C10 violated (%s claims under an add-on that embeds them through the IClaims interface): %s\n emitted: %x\n [%s]", p, msg, out, m.ClassVector())
+			}
+			st.Case("iface-wrapper|"+m.ClassVector(), "route=iface-wrapper", p.String())
+			return
+		}
+		if route == "concurrent-encoders" {
+			// one claims-set (decoded; profile 1 in the no-measurements form
+			// half of the time) encoded by several goroutines at once through
+			// every door to the encoders: whatever each of them gets is the
+			// profile's wire format (and the same bytes as alone)
+			m := GenValid(t, p, false)
+			if p == P1 && genBool.Draw(t, "conc.nomeas") {
+				m.Comps, m.CompsNil, m.NoMeas = nil, false, u64p(1)
+			}
+			c, derr := psatoken.DecodeClaimsFromCBOR(m.WireBytes())
+			if derr != nil {
+				t.Fatalf("conformant token does not decode: %v", derr)
+			}
+			type res struct {
+				cbor [][]byte
+				err  error
+			}
+			const G, N = 4, 24
+			results := make([]res, G)
+			var wg sync.WaitGroup
+			start := make(chan struct{})
+			for g := 0; g < G; g++ {
+				wg.Add(1)
+				go func(g int) {
+					defer wg.Done()
+					<-start
+					for i := 0; i < N; i++ {
+						var b []byte
+						var err error
+						switch (g + i) % 4 {
+						case 0:
+							b, err = psatoken.ValidateAndEncodeClaimsToCBOR(c)
+						case 1:
+							if mm, ok := c.(interface{ MarshalCBOR() ([]byte, error) }); ok {
+								b, err = mm.MarshalCBOR()
+							} else {
+								b, err = psatoken.EncodeClaimsToCBOR(c)
+							}
+						case 2:
+							_, err = psatoken.EncodeClaimsToJSON(c)
+							if err == nil {
+								b, err = psatoken.EncodeClaimsToCBOR(c)
+							}
+						default:
+							b, err = psatoken.EncodeClaimsToCBOR(c)
+						}
+						if err != nil {
+							results[g].err = err
+							return
+						}
+						results[g].cbor = append(results[g].cbor, b)
+					}
+				}(g)
+			}
+			close(start)
+			wg.Wait()
+			for g := range results {
+				if results[g].err != nil {
+					t.Fatalf("C10: encoding a valid claims-set fails while other goroutines encode it too: %v", results[g].err)
+				}
+				for _, b := range results[g].cbor {
+					if msg := c10CheckWire(b, m); msg != "" {
+						t.Fatalf("C10 violated (claims-set encoded by %d goroutines at once): %s\n emitted: %x\n [%s]", G, msg, b, m.ClassVector())
+					}
+				}
+			}
+			cls := []string{"route=concurrent-encoders", p.String()}
+			if m.NoMeas != nil {
+				cls = append(cls, "nomeas")
+			}
+			st.Case("concurrent|"+m.ClassVector(), cls...)
 			return
 		}
 		if route == "foreign-component" {
